@@ -249,7 +249,9 @@ theorem filter_map_pop (l : List Item) (X : Nat) :
 
 theorem retryAdd_items' (r : R) (o : RObj) (a b : Nat) (d : Bool) :
     ∃ itn : Item, (r.retryAdd o a b d).items = r.items.filter (·.id ≠ o.id) ++ [itn] ∧
-      itn.id = o.id ∧ itn.obj = o ∧ itn.rev = a ∧ itn.origRev = b ∧ itn.delete = d ∧ itn.inQueue = true ∧
+      itn.id = o.id ∧ itn.obj = o ∧ itn.rev = a ∧
+      itn.origRev = (match r.items.find? (·.id = o.id) with | some i => i.origRev | none => b) ∧
+      itn.delete = d ∧ itn.inQueue = true ∧
       itn.retryAt ≤ r.now + r.cfg.maxB := by
   refine ⟨_, rfl, rfl, rfl, rfl, rfl, rfl, rfl, ?_⟩
   simp only
